@@ -107,8 +107,8 @@ func withClosures(fn *ssa.Function) []*ssa.Function {
 func (r *R) modFuncs() []*ssa.Function {
 	var out []*ssa.Function
 	for f := range r.AllFuncs {
-		if len(f.Blocks) == 0 {
-			continue
+		if len(f.Blocks) == 0 || f.Synthetic != "" && f.Parent() == nil && !strings.HasPrefix(f.Synthetic, "package initializer") {
+			continue // wrappers and bound-method thunks have no source of their own
 		}
 		if inModule(f) {
 			out = append(out, f)
